@@ -82,7 +82,7 @@ func checkC09(c *Ctx) {
 		return ok, cnt
 	}
 
-	r.Floor("C09.1-marks-monotone", 4)
+	r.Floor("C09.1-marks-monotone", 3)
 	gLast := core.LessGuard("lastID<SeqId", core.IsFieldLoad(lastID), isSeq, false)
 	for _, st := range core.StoresToField(marker, readID) {
 		construct := fk(marker) + ": readID = " + valDesc(st.Val, noteSeq.Name())
